@@ -663,6 +663,14 @@ func (w *World) Apply(op Op) ApplyResult {
 			w.Errs++
 		}
 		return ApplyResult{Err: err}
+	case "gap": // leaves a gap in the data file ids: several files merged into fewer, adopted by a restart
+		for _, o := range []Op{{K: "put", Key: "a", VC: "L"}, {K: "put", Key: "a", VC: "L"}, {K: "put", Key: "b", VC: "L"}, {K: "put", Key: "a", VC: "L"}, {K: "merge", Arg: 1}, {K: "restart"}} {
+			ar := w.Apply(o)
+			if ar.Err != nil || ar.Clause != "" || w.Dead {
+				return ar
+			}
+		}
+		return ApplyResult{}
 	case "fill": // Arg puts with value class VC, alternating over the key universe (many data files in one step)
 		for i := 0; i < op.Arg; i++ {
 			ar := w.Apply(Op{K: "put", Key: w.Keys[i%len(w.Keys)], VC: op.VC})
